@@ -623,3 +623,89 @@ def canary_handle_error(u: U):
     f = u.load(MOD, "RequestHandler.handle_error", globals={"Response": _Resp})
     out = u.call(f, h, _R(), 500, Boom("x"))
     u.check("C05.canary", out.ok, "false")
+
+
+@unit("C05", "finish_response", functions=[f"{MOD}:RequestHandler.finish_response"])
+def finish_response(u: U):
+    """finish_response: the response is prepared and ended exactly once; when an upgrade request was declined, the
+    bytes buffered behind it are handed to the parser exactly once - afterwards the buffer holds only what the parser
+    left over - and the requests found in them are queued in order under the same cap as in data_received"""
+    M = live()
+    from aiohttp.http_exceptions import BadHttpMessage
+
+    log = []
+    declined = u.choose(2, "declined_upgrade") == 1
+    tail0 = u.bytes("message_tail")
+    u.assume(blen_(tail0) > 0)
+    fails = u.choose(2, "parse_fails") == 1 if declined else False
+    k = u.choose(3, "messages_in_tail") if declined and not fails else 0
+    up2 = u.choose(2, "another_upgrade") == 1 if declined and not fails else False
+    tail2 = u.bytes("parser_remainder")
+    maxq = 2
+    msgs = collections_deque([])
+
+    class _Parser:
+        def set_upgraded(self, v):
+            log.append(("set_upgraded", v))
+
+        def feed_data(self, d):
+            log.append(("parse", d))
+            if fails:
+                raise BadHttpMessage("garbage")
+            return [("M", "P")] * k, up2, tail2
+
+    class _Resp:
+        def prepare(self, request):
+            log.append(("prepare",))
+            return SAwait(name="prepare", raises=(ConnectionResetError("gone"),))
+
+        def write_eof(self):
+            log.append(("write_eof",))
+            return SAwait(name="write_eof", raises=(ConnectionResetError("gone"),))
+
+    class _Request:
+        def _finish(self):
+            log.append(("request._finish",))
+
+    paused0 = u.choose(2, "queue_paused") == 1
+    h = u.obj("RequestHandler", {"_upgraded": declined, "_messages": msgs, "_payload_parser": None, "_parser": _Parser(),
+                                 "_message_tail": tail0, "_request_count": 0, "_max_msg_queue_size": maxq,
+                                 "_msg_queue_paused": paused0, "_waiter": None},
+              {"_pause_msg_queue_reading": lambda self: log.append(("pause",)),
+               "_resume_msg_queue_reading": lambda self: log.append(("resume",)),
+               "log_access": lambda self, *a: SAwait(name="log_access"),
+               "log_exception": lambda self, *a, **k_: None}, shared=False)
+    f = u.load(MOD, "RequestHandler.finish_response")
+    u.loop("web_protocol:RequestHandler.finish_response", 0, unroll=True, bound=4)
+    out = u.call(f, h, _Request(), _Resp(), None)
+    u.check("C05.finish.total", out.ok, f"only a lost connection is reported (as reset=True), nothing escapes: {out!r}")
+    names = [e[0] for e in log]
+    u.check("C05.finish.one_response", names.count("prepare") == 1 and names.count("write_eof") <= 1,
+            "the response is prepared once and ended at most once")
+    if out.ok:
+        lost = not (names.count("write_eof") == 1 and out.value[1] is False)
+        u.check("C05.finish.reset_iff_connection_lost", out.value[1] is lost, "reset=True exactly when the peer went away while writing")
+    fs = fields(h)
+    if declined:
+        parses = [e for e in log if e[0] == "parse"]
+        u.check("C05.finish.tail_parsed_once", len(parses) == 1 and parses[0][1] is tail0,
+                "the bytes buffered behind the declined upgrade are parsed, once")
+        if fails:
+            new = list(msgs)
+            u.check("C05.finish.tail_garbage_is_one_400", len(new) == 1 and isinstance(new[0][0], M._ErrInfo) and new[0][0].status == 400
+                    and blen_(fs["_message_tail"]) == 0 and fs["_upgraded"] is False,
+                    "garbage behind the upgrade becomes one queued 400 and the buffer is emptied")
+        else:
+            u.check("C05.finish.tail_replaced_by_remainder", fs["_message_tail"] is tail2 and fs["_upgraded"] is up2,
+                    "afterwards the buffer holds exactly what the parser left over (never the bytes just parsed again)")
+            u.check("C05.finish.tail_messages_queued_in_order", list(msgs) == [("M", "P")] * k, "requests found in the tail are queued in order")
+            u.check("C05.finish.tail_queue_cap", (("pause",) in log) == (k >= maxq), "the queue cap applies here as in data_received")
+    else:
+        u.check("C05.finish.no_reparse_without_declined_upgrade", "parse" not in names and fs["_message_tail"] is tail0,
+                "without a declined upgrade the buffer is not touched")
+
+
+def blen_(x):
+    from pyvc import blen
+
+    return blen(x)
